@@ -55,13 +55,13 @@ def rep(p, lo, hi):
     return run
 
 
-def counted(digits, body, extra=0):
-    """<n> body{int(<n>) + extra}: one digit of `digits`, then exactly that many bodies"""
+def counted(digits, body, extra=0, sep=""):
+    """<n> sep body{int(<n>) + extra}: one digit of `digits`, a fixed separator, then exactly that many bodies"""
     def run(w, i):
         out = set()
         for d in digits:
-            if w.startswith(d, i):
-                out |= rep(body, int(d) + extra, int(d) + extra)(w, i + 1)
+            if w.startswith(d + sep, i):
+                out |= rep(body, int(d) + extra, int(d) + extra)(w, i + 1 + len(sep))
         return out
     return run
 
@@ -92,6 +92,12 @@ def _templates() -> list:
     out.append(("two_counts", '<start> ::= <n> <x>{int(<n>)} <m> <y>{int(<m>)}\n' + N + X + '<m> ::= "0" | "1"\n<y> ::= "b"\n',
                 seq(item, counted("01", lit("b"))), "012ab"))
     out.append(("group_body", '<start> ::= <n> (<x> "-"){int(<n>)}\n' + N + X, counted("012", seq(ab, lit("-"))), "012a-"))
+    # the same text stands between every count and its repetition: the last terminal read before the repetition is predicted is
+    # equal for all records of one input although their counts differ
+    sep_item = counted("012", lit("a"), sep=":")
+    out.append(("separator_under_star", '<start> ::= (<n> ":" <x>{int(<n>)})*\n' + N + '<x> ::= "a"\n', rep(sep_item, 0, None), "01a:"))
+    out.append(("separator_in_list", '<start> ::= <item> | <item> "," <start>\n<item> ::= <n> ":" <x>{int(<n>)}\n' + N + '<x> ::= "a"\n',
+                seq(sep_item, rep(seq(lit(","), sep_item), 0, None)), "01a:,"))
     nested = []
     nested.append(counted("012", alt(lit("a"), seq(lit("["), lazy(lambda: nested[0]), lit("]")))))
     out.append(("bracket_recursion", '<start> ::= <blk>\n<blk> ::= <n> <el>{int(<n>)}\n<el> ::= "a" | "[" <blk> "]"\n' + N, nested[0], "012a[]"))
@@ -100,7 +106,9 @@ def _templates() -> list:
 
 def templates(tier: str) -> list:
     n = 5 if tier == "quick" else 7
-    return [(name, fan, alphabet, n) for name, fan, _, alphabet in _templates()]
+    # two records with a separator and different counts need 5-6 symbols ("1:a0:", "1:a,0:"); those templates get their own bound
+    own = {"separator_under_star": 6 if tier == "quick" else 8, "separator_in_list": 6 if tier == "quick" else 7}
+    return [(name, fan, alphabet, own.get(name, n)) for name, fan, _, alphabet in _templates()]
 
 
 def _ref(name):
